@@ -10,6 +10,6 @@ extract: coq
 	cd $(OCDIR) && ocamlfind ocamlopt -O3 -package str -I gen gen/model.mli gen/model.ml modelrun.ml -o modelrun 2>&1 | grep -v "options -O3 is only relevant" || true
 	test -x $(OCDIR)/modelrun
 forbidden:
-	@! grep -rnE '\b(Admitted|admit|Axiom|Parameter|Conjecture|Hypothesis|Variable[^s])\b|Unset Guard|bypass_check|type-in-type|Admit Obligations' $(COQDIR) --include=*.v | grep -v 'Section\|(\*.*\*)' | grep -v '^[^:]*:[0-9]*: *Variable' || (echo "forbidden token found"; exit 1)
+	@python3 /verif/tools/forbidden.py /verif/coq
 clean:
 	cd $(COQDIR) && (test -f Makefile.coq && $(MAKE) -f Makefile.coq clean >/dev/null 2>&1 || true); rm -rf $(OCDIR)/gen $(OCDIR)/modelrun $(OCDIR)/*.cm* $(OCDIR)/*.o
